@@ -1,6 +1,6 @@
 ----------------------------- MODULE MC_Derive -----------------------------
 EXTENDS Derive, Json
-CaseJson == [tagRequired |-> TagRequired, hasOther |-> HasOther, tag |-> d.Type, o |-> d.O, dd |-> d.D, v |-> d.V, u |-> d.U,
+CaseJson == [tagRequired |-> TagRequired, hasOther |-> HasOther, tag |-> d.Type, r |-> d.R, o |-> d.O, dd |-> d.D, v |-> d.V, u |-> d.U,
              readable |-> x.ok]
 Emit == phase = "done" => PrintT(<<"CASE", ToJson(CaseJson)>>)
 =============================================================================
